@@ -530,6 +530,53 @@ class Ctx:
         shutil.rmtree(wd, ignore_errors=True)
         return r
 
+    # -------------------------------------------------------------------------------
+    # Symbolic full-range laws (Apalache): the layout laws for ALL values of every field
+    # -------------------------------------------------------------------------------
+    def symbolic_laws(self, laws, timeout=420):
+        """laws: names of Law_* invariants of spec/apalache/AP_Laws.tla. First TLC checks (MC_ApEquiv) that the typed
+        transcription agrees with the specification's own operators on the grids, then apalache-mc checks each law with
+        every field left symbolic over its full range. A law that fails is a defect of the specification (exit 2); a
+        solver timeout is recorded, not judged."""
+        wd = self.workdir("apalache")
+        for f in os.listdir(os.path.join(SPEC_DIR, "apalache")):
+            if f.endswith(".tla"):
+                shutil.copy(os.path.join(SPEC_DIR, "apalache", f), wd)
+        r = run_tlc(wd, "MC_ApEquiv.tla", "MC_ApEquiv.cfg", workers=1, xmx="3g", timeout=600)
+        if r["errors"] or not r["finished"]:
+            raise MachineryError(f"typed transcription AP_Layout disagrees with the specification (MC_ApEquiv): {r['errors'][:8]}")
+        if not shutil.which("apalache-mc"):
+            self.note("apalache-mc not found: symbolic laws skipped")
+            return
+        results = {}
+
+        def one(law):
+            out = os.path.join(wd, "out-" + law)
+            t0 = time.time()
+            try:
+                p = subprocess.run(["apalache-mc", "check", f"--inv={law}", "--length=0", f"--out-dir={out}", "AP_Laws.tla"],
+                                   cwd=wd, capture_output=True, text=True, timeout=timeout)
+                txt = p.stdout + p.stderr
+                if "The outcome is: NoError" in txt:
+                    results[law] = ("proved", time.time() - t0)
+                elif "The outcome is: Error" in txt or "violated" in txt:
+                    results[law] = ("violated", time.time() - t0)
+                else:
+                    results[law] = ("unknown: " + (txt.strip().splitlines() or ["?"])[-1][:120], time.time() - t0)
+            except subprocess.TimeoutExpired:
+                results[law] = ("timeout", time.time() - t0)
+            shutil.rmtree(out, ignore_errors=True)
+
+        with ThreadPoolExecutor(max_workers=min(len(laws), 6) or 1) as ex:
+            list(ex.map(one, laws))
+        bad = [x for x, (v, _) in results.items() if v == "violated"]
+        if bad:
+            raise MachineryError(f"specification law(s) {bad} do not hold for all field values (Apalache counterexample)")
+        self.extra["symbolic_laws"] = {x: f"{v} in {t:.0f}s (apalache-mc --length=0, every field symbolic over its full range)"
+                                       for x, (v, t) in sorted(results.items())}
+        self.note("symbolic laws: " + ", ".join(f"{x}={v}" for x, (v, _) in sorted(results.items())))
+        shutil.rmtree(wd, ignore_errors=True)
+
     def validate_trace(self, module, events, label, shard=20000):
         """Direction B for state machines: histories recorded from the real objects are checked
         by a stateful trace specification (module) that steps the spec's actions along the
